@@ -9,17 +9,22 @@
 (* remaining input, Pending (not in two consecutive polls), one I/O error per run, EOF at the end. *)
 (* One poll_next makes several reads: the action chooses them as a script `io` that the call       *)
 (* consumes entirely.  The codec is a parameter: "lp" (1-byte length prefix test codec with an     *)
-(* invalid header byte and a tail frame at end of stream), "lines" (LinesCodec.tla), "bytes".      *)
+(* invalid header byte and a tail frame at end of stream), "lpe" (the same codec, stateful: its     *)
+(* decode_eof additionally yields exactly one "end" frame once the buffer is empty, i.e. an         *)
+(* end-of-stream frame produced from codec state on an EMPTY buffer), "lines" (LinesCodec.tla),     *)
+(* "bytes".   cended = codec state of "lpe": the end frame has been emitted.                        *)
 EXTENDS Naturals, Sequences, FiniteSets, TLC, Json
 
 CONSTANTS Codec, Alpha, MaxLen, LpBad, LpScale,
           EofDecodes,        \* design TRUE: at EOF decode_eof is called until it returns None (FALSE: None at once)
           KeepBufOnPending,  \* design TRUE: a Pending read leaves read_buf alone (FALSE: partial frame dropped)
-          SurfaceIoErr       \* design TRUE: a read error is yielded as an item (FALSE: swallowed, poll returns Pending)
+          SurfaceIoErr,      \* design TRUE: a read error is yielded as an item (FALSE: swallowed, poll returns Pending)
+          EofFastPath        \* design FALSE: a 0-byte read always sets EOF and goes through decode_eof
+                             \* (TRUE: with an empty read_buf the stream ends at once - decode_eof never runs)
 
-VARIABLES input, pos, rbuf, eof, readable, out, done, errUsed, lastPend, act
-vars == <<input, pos, rbuf, eof, readable, out, done, errUsed, lastPend, act>>
-View == <<input, pos, rbuf, eof, readable, out, done, errUsed, lastPend>>
+VARIABLES input, pos, rbuf, eof, readable, cended, out, done, errUsed, lastPend, act
+vars == <<input, pos, rbuf, eof, readable, cended, out, done, errUsed, lastPend, act>>
+View == <<input, pos, rbuf, eof, readable, cended, out, done, errUsed, lastPend>>
 
 L == INSTANCE LinesCodec WITH StripAllCR <- FALSE, SplitAtCR <- FALSE, DropFinal <- FALSE, LossyUtf8 <- FALSE, EncodeLFs <- 1
 
@@ -27,10 +32,11 @@ None == [k |-> "none", v |-> <<>>]
 Ok(f) == [k |-> "ok", v |-> f]
 Tail_(f) == [k |-> "tail", v |-> f]
 Err == [k |-> "err", v |-> <<>>]
+End == [k |-> "end", v |-> <<>>]
 IoErr == [k |-> "ioerr", v |-> <<>>]
 Pending == [k |-> "pending", v |-> <<>>]
 
-\* ---- codecs: Dec / DecEof return <<result, rest of buffer>> ----
+\* ---- codecs: Dec(buf) returns <<result, rest of buffer>>; DecEof(buf, ce) returns <<result, rest, ce'>> ----
 LpDec(b) == IF b = <<>> THEN <<None, b>>
             ELSE IF b[1] = LpBad THEN <<Err, Tail(b)>>
             ELSE LET need == b[1] * LpScale IN
@@ -39,20 +45,26 @@ LpDec(b) == IF b = <<>> THEN <<None, b>>
 LpDecEof(b) == LET d == LpDec(b) IN
                IF d[1].k # "none" THEN d ELSE IF b = <<>> THEN <<None, b>> ELSE <<Tail_(b), <<>>>>
 BytesDec(b) == IF b = <<>> THEN <<None, b>> ELSE <<Ok(b), <<>>>>
-Dec(b) == IF Codec = "lp" THEN LpDec(b) ELSE IF Codec = "lines" THEN L!Decode(b) ELSE BytesDec(b)
-DecEof(b) == IF Codec = "lp" THEN LpDecEof(b) ELSE IF Codec = "lines" THEN L!DecodeEof(b) ELSE BytesDec(b)
+\* "lpe": decode as lp; decode_eof: frame / tail as lp, then on the empty buffer one End frame, then None
+LpeDecEof(b, ce) == LET d == LpDecEof(b) IN
+                    IF d[1].k # "none" THEN <<d[1], d[2], ce>>
+                    ELSE IF ~ce THEN <<End, b, TRUE>> ELSE <<None, b, ce>>
+Dec(b) == IF Codec \in {"lp", "lpe"} THEN LpDec(b) ELSE IF Codec = "lines" THEN L!Decode(b) ELSE BytesDec(b)
+DecEof(b, ce) == IF Codec = "lpe" THEN LpeDecEof(b, ce)
+                 ELSE LET d == IF Codec = "lp" THEN LpDecEof(b) ELSE IF Codec = "lines" THEN L!DecodeEof(b) ELSE BytesDec(b)
+                      IN <<d[1], d[2], ce>>
 
 \* the codec's decoding of the whole stream: decode until None, then decode_eof until None
-RECURSIVE Phase(_, _)
-Phase(src, e) == LET d == IF e THEN DecEof(src) ELSE Dec(src) IN
-                 IF d[1].k = "none" THEN <<<<>>, d[2]>>
-                 ELSE LET r == Phase(d[2], e) IN <<<<d[1]>> \o r[1], r[2]>>
-WholeStreamFrames(s) == LET p == Phase(s, FALSE) IN p[1] \o Phase(p[2], TRUE)[1]
+RECURSIVE Phase(_, _, _)
+Phase(src, e, ce) == LET d == IF e THEN DecEof(src, ce) ELSE <<Dec(src)[1], Dec(src)[2], ce>> IN
+                     IF d[1].k = "none" THEN <<<<>>, d[2]>>
+                     ELSE LET r == Phase(d[2], e, d[3]) IN <<<<d[1]>> \o r[1], r[2]>>
+WholeStreamFrames(s) == LET p == Phase(s, FALSE, FALSE) IN p[1] \o Phase(p[2], TRUE, FALSE)[1]
 
 \* ---- next_item ----
 NoHint == [on |-> FALSE, s |-> <<>>]
 Rd(a, k) == [a |-> a, k |-> k]
-St(b, p, e, r) == [rbuf |-> b, pos |-> p, eof |-> e, rd |-> r]
+St(b, p, e, r, ce) == [rbuf |-> b, pos |-> p, eof |-> e, rd |-> r, ce |-> ce]
 Outc(st, res, io) == [st |-> st, res |-> res, io |-> io]
 Pre(a, o) == [o EXCEPT !.io = <<a>> \o o.io]
 
@@ -70,7 +82,9 @@ ReadOuts(st, i, h) ==
   UNION {LET a == x IN
     IF a.a = "pending" THEN {Outc(IF KeepBufOnPending THEN st ELSE [st EXCEPT !.rbuf = <<>>], Pending, <<a>>)}
     ELSE IF a.a = "err" THEN {Outc(st, IF SurfaceIoErr THEN IoErr ELSE Pending, <<a>>)}
-    ELSE IF a.a = "eof" THEN {Pre(a, o) : o \in Outs([st EXCEPT !.eof = TRUE, !.rd = TRUE], i + 1, h)}
+    ELSE IF a.a = "eof" THEN
+           (IF EofFastPath /\ st.rbuf = <<>> THEN {Outc(st, None, <<a>>)}
+            ELSE {Pre(a, o) : o \in Outs([st EXCEPT !.eof = TRUE, !.rd = TRUE], i + 1, h)})
     ELSE {Pre(a, o) : o \in Outs([st EXCEPT !.rbuf = @ \o SubSeq(input, st.pos + 1, st.pos + a.k),
                                             !.pos = @ + a.k, !.rd = TRUE], i + 1, h)}
     : x \in ReadAns(st, i, h)}
@@ -79,7 +93,7 @@ Outs(st, i, h) ==
   IF st.rd THEN
     IF st.eof THEN
       IF ~EofDecodes THEN {Outc(st, None, <<>>)}
-      ELSE LET d == DecEof(st.rbuf) IN {Outc([st EXCEPT !.rbuf = d[2]], d[1], <<>>)}
+      ELSE LET d == DecEof(st.rbuf, st.ce) IN {Outc([st EXCEPT !.rbuf = d[2], !.ce = d[3]], d[1], <<>>)}
     ELSE LET d == Dec(st.rbuf) IN
       IF d[1].k # "none" THEN {Outc([st EXCEPT !.rbuf = d[2]], d[1], <<>>)}
       ELSE ReadOuts([st EXCEPT !.rd = FALSE], i, h)
@@ -87,16 +101,16 @@ Outs(st, i, h) ==
 
 Inputs == UNION {[1..n -> Alpha] : n \in 0..MaxLen}
 NoAct == [op |-> "init", io |-> <<>>, res |-> None]
-Init == /\ input \in Inputs /\ pos = 0 /\ rbuf = <<>> /\ eof = FALSE /\ readable = FALSE
+Init == /\ input \in Inputs /\ pos = 0 /\ rbuf = <<>> /\ eof = FALSE /\ readable = FALSE /\ cended = FALSE
         /\ out = <<>> /\ done = FALSE /\ errUsed = FALSE /\ lastPend = FALSE /\ act = NoAct
 
-Cur == St(rbuf, pos, eof, readable)
+Cur == St(rbuf, pos, eof, readable, cended)
 IoHas(io, a) == \E i \in 1..Len(io) : io[i].a = a
 PollNext(h) ==
   /\ ~done
   /\ \E o \in Outs(Cur, 1, h) :
        /\ (h.on => o.io = h.s)
-       /\ rbuf' = o.st.rbuf /\ pos' = o.st.pos /\ eof' = o.st.eof /\ readable' = o.st.rd
+       /\ rbuf' = o.st.rbuf /\ pos' = o.st.pos /\ eof' = o.st.eof /\ readable' = o.st.rd /\ cended' = o.st.ce
        /\ out' = (IF o.res.k = "pending" THEN out ELSE Append(out, o.res))
        /\ done' = (o.res.k \in {"none", "ioerr"})
        /\ errUsed' = (errUsed \/ IoHas(o.io, "err"))
